@@ -222,6 +222,12 @@ def cases(tier):
         # fine-grained gates (every resolve/connect/recv) for short targets
         for a, b in itertools.product(['TERR', 'MARK', 'CLEAN'], repeat=2):
             out.append(((a, b), 2, 'text', False, 2, fine, None))
+        # a target that misbehaves in its probe phase next to a healthy one: both are reported as when audited alone
+        for f in [a for a in MT.FAILING if a.startswith('PROBE')]:
+            for h in ('CLEAN', 'RSA1024'):
+                for order in ((f, h), (h, f)):
+                    out.append((order, 1, 'text', False, 0, conn, None))
+                    out.append((order, 2, 'json', False, 1, conn, None))
         # a switch at any one receive of either target (objects shared between two audits in flight show here)
         for a, b in itertools.product(ARCHS, ARCHS):
             out.append(((a, b), 2, 'text' if (ARCHS.index(a) + ARCHS.index(b)) % 2 else 'json', False, 1, ('recv',), 400))
